@@ -272,9 +272,10 @@ def finish(driver, prop, tier, base_seed, records, summaries, known, wall):
     ev = {'property_id': prop, 'tier': tier, 'seed': base_seed, 'level': 'exploration', 'coverage': cov,
           'assumptions': list(getattr(driver, 'ASSUMPTIONS', [])), 'wall_s': round(wall, 2),
           'violations': len(violating)}
-    os.makedirs(os.path.join(env.VERIF, 'evidence'), exist_ok=True)
-    with open(os.path.join(env.VERIF, 'evidence', prop + '.json'), 'w') as f:
-        json.dump(jsonable(ev), f, indent=1, default=str)
+    if not os.environ.get('EAO_NO_EVIDENCE'):        # (set by the mutant self-tests: they must not overwrite the evidence of /repo)
+        os.makedirs(os.path.join(env.VERIF, 'evidence'), exist_ok=True)
+        with open(os.path.join(env.VERIF, 'evidence', prop + '.json'), 'w') as f:
+            json.dump(jsonable(ev), f, indent=1, default=str)
 
     print('%s %s seed=%d: cases=%d %s nontrivial_distinct=%d wall=%.1fs' % (prop, tier, base_seed, n_ran, dict(status), len(keys_nontrivial), wall))
     print('  clauses (evaluated/non-vacuous): ' + ', '.join('%s=%d/%d' % (k, evaluated[k], nonvac.get(k, 0)) for k in sorted(evaluated)))
